@@ -1,5 +1,6 @@
 import BadgerModel.Merge
 import BadgerModel.Skiplist
+import BadgerModel.SkipConc
 import BadgerModel.Driver.Util
 /-!
 `bmd_iter merge` / `bmd_iter skl`: stateful line-protocol drivers for the merge iterator model
@@ -187,6 +188,115 @@ def sklStep (d : SklDrv) (line : String) : SklDrv × String :=
     | some k => uniStep d (some (d.s.uniSeek d.uniRev k))
     | none => (d, "bad-op")
   | ["unext"] => uniStep d (d.s.uniNext d.uniRev d.uni)
+  | _ => (d, "bad-op")
+
+/-! ## sklsched: concurrent `Put`s under an explicit schedule (`BadgerModel/SkipConc.lean`)
+
+The real code parks a goroutine at the schedule points of `Put` (`verifSklPoint`, /repo/skl);
+`sched t,…` lets goroutine `t` run to its next point.  The model executes the same goroutine's
+atomic steps until it is about to make the access that point stands for. -/
+
+open SkipConc in
+/-- program points at which the real `Put` has a schedule point -/
+def isYieldPc : Pc → Bool
+  | .setval _ | .casH _ | .cas _ | .done | .panic => true
+  | _ => false
+
+open SkipConc in
+def pcToken : Pc → String
+  | .start => "start"
+  | .setval _ => "setval"
+  | .casH _ => "cash"
+  | .cas i => "cas" ++ toString i
+  | .linkScan i _ true => "casfail" ++ toString i
+  | .done => "done"
+  | .panic => "panic"
+  | _ => "running"
+
+open SkipConc in
+def runToYield : Nat → Skiplist → PutLocal → Skiplist × PutLocal
+  | 0, s, l => (s, l)
+  | n + 1, s, l =>
+    if isYieldPc l.pc then (s, l)
+    else let r := stepPut s l; runToYield n r.1 r.2
+
+open SkipConc in
+/-- let the goroutine run from its current schedule point to the next one -/
+def advancePut (s : Skiplist) (l : PutLocal) : Skiplist × PutLocal :=
+  let r := stepPut s l
+  match l.pc, r.2.pc with
+  | .cas _, .linkScan _ _ true => r          -- the CAS failed: point `casfail`
+  | _, _ => runToYield 100000 r.1 r.2
+
+structure SchedDrv where
+  c : SkipConc.CState := { s := Skiplist.empty, ts := [] }
+
+def schedStepOne (d : SchedDrv) (t : Nat) : Option (SchedDrv × String) :=
+  match d.c.ts[t]? with
+  | none => none
+  | some l =>
+    let r := advancePut d.c.s l
+    some ({ c := { s := r.1, ts := d.c.ts.set t r.2 } }, pcToken r.2.pc)
+
+def schedSteps (d : SchedDrv) : List Nat → List String → Option (SchedDrv × List String)
+  | [], acc => some (d, acc.reverse)
+  | t :: ts, acc =>
+    match schedStepOne d t with
+    | some (d', tok) => schedSteps d' ts (tok :: acc)
+    | none => none
+
+/-- `finish`: goroutines 0,1,… one after the other, each to completion -/
+def schedFinish (d : SchedDrv) : Nat → Nat → List String → SchedDrv × List String
+  | 0, _, acc => (d, acc.reverse)
+  | fuel + 1, t, acc =>
+    match d.c.ts[t]? with
+    | none => (d, acc.reverse)
+    | some l =>
+      if l.pc == .done || l.pc == .panic then schedFinish d fuel (t + 1) acc
+      else
+        match schedStepOne d t with
+        | some (d', tok) => schedFinish d' fuel t ((toString t ++ ":" ++ tok) :: acc)
+        | none => (d, acc.reverse)
+
+def schedStep (d : SchedDrv) (line : String) : SchedDrv × String :=
+  match words line with
+  | ["reset"] => ({}, "ok")
+  | ["pre", k, v, h] =>
+    match hexArg k, hexArg v, natArg h with
+    | some k, some v, some h =>
+      match d.c.s.put k v h with
+      | some s' => ({ c := { d.c with s := s' } }, "ok")
+      | none => (d, "panic")
+    | _, _, _ => (d, "bad-op")
+  | ["spawn", t, k, v, h] =>
+    match natArg t, hexArg k, hexArg v, natArg h with
+    | some t, some k, some v, some h =>
+      if t == d.c.ts.length then
+        ({ c := { d.c with ts := d.c.ts ++ [{ key := k, v := v, h := h }] } }, "start")
+      else (d, "bad-op")
+    | _, _, _, _ => (d, "bad-op")
+  | ["sched", lst] =>
+    match (lst.splitOn ",").mapM (fun x => x.toNat?) with
+    | some ts =>
+      match schedSteps d ts [] with
+      | some (d', toks) => (d', ",".intercalate toks)
+      | none => (d, "bad-op")
+    | none => (d, "bad-op")
+  | ["finish"] =>
+    let (d', toks) := schedFinish d 100000 0 []
+    (d', if toks.isEmpty then "-" else ",".intercalate toks)
+  | ["get", k] =>
+    match hexArg k with
+    | some k => let (v, ver) := d.c.s.get k; (d, toHex v ++ " " ++ toString ver)
+    | none => (d, "bad-op")
+  | ["height"] => (d, toString d.c.s.height)
+  | ["tower"] =>
+    (d, " | ".intercalate ((List.range d.c.s.height).map (fun i =>
+          let l := d.c.s.level i
+          if l.isEmpty then "-" else " ".intercalate (l.map toHex))))
+  | ["dump"] =>
+    (d, let l := d.c.s.toList
+        if l.isEmpty then "-" else " ".intercalate (l.map itEntryStr))
   | _ => (d, "bad-op")
 
 end Badger.Driver
